@@ -37,6 +37,9 @@ REDUCED = ["PWD", "CWD d", "CDUP", "MKD m", "RNFR g", "RNTO h", "PASV", "@data",
 
 
 def conf_for(backend):
+    if backend == "memory/wait-for-ever":
+        # wait_future_timeout=None: a transfer waits for its data connection without limit
+        return Conf(USERS, TREE, backend="memory", server_kwargs={"wait_future_timeout": None})
     return Conf(USERS, TREE, backend=backend)
 
 
@@ -232,8 +235,10 @@ def run(tier, seed, t0):
         parts.append(sweep_hist("memory", rest_scope_histories(), "rest-scope"))
         parts.append(sweep("memory", [], LOGINS, 4))       # every login history of length 4 (a limited user re-logging in)
         parts.append(sweep_hist("memory", late_histories(), "late-data"))
+        parts.append(sweep_hist("memory/wait-for-ever", late_histories()[::3], "late-data"))
         parts.append(sweep_hist("memory", rename_histories(), "rename-ancestor"))
     else:
+        parts.append(sweep_hist("memory/wait-for-ever", late_histories(), "late-data"))
         parts.append(sweep_hist("memory", rename_histories(), "rename-ancestor"))
         parts.append(sweep_hist("pathio", rename_histories(), "rename-ancestor"))
         parts.append(sweep_hist("memory", late_histories(), "late-data"))
